@@ -42,7 +42,7 @@ theorem isBoolAct_arith (a : Act) (h : (isArith a || isShift a) = true) : isBool
 theorem isBoolAct_unarith (a : Act) (h : isUnArith a = true) : isBoolAct a = false := by
   cases a <;> simp [isUnArith] at h <;> rfl
 
-theorem evalY_int_correct (env : Env) (henv : env.noFrame = false) (hp2 : env.pass2 = false) :
+theorem evalY_int_correct (env : Env) (hp2 : env.pass2 = false) :
     ∀ e, intShape e = true → noRuneQuo env.iota e = true → ∀ gv, Spec.evalGo env.iota e = .ok gv →
       ∃ n, evalY F0 env none e = .ok n ∧ Inv n gv := by
   intro e
@@ -111,7 +111,7 @@ theorem evalY_int_correct (env : Env) (henv : env.noFrame = false) (hp2 : env.pa
     by_cases hsh : isShift a = true
     · have hcond : (a == .shl || a == .shr) = true := by simpa [isShift] using hsh
       rw [if_pos hcond] at hgo
-      obtain ⟨n, hn, hi⟩ := shiftNode_correct env henv a hsh c0 c1 g0 g1 gv hi0 hi1 hgo
+      obtain ⟨n, hn, hi⟩ := shiftNode_correct env a hsh c0 c1 g0 g1 gv hi0 hi1 hgo
       have hsa : isShiftAct a = true := by simpa [isShiftAct, isShift] using hsh
       exact ⟨n, by simp [evalY, hnb, hc0, hc1, hsa, hn], hi⟩
     · have har : isArith a = true := by
@@ -132,7 +132,7 @@ theorem evalY_int_correct (env : Env) (henv : env.noFrame = false) (hp2 : env.pa
         intro haq ⟨h1, h2⟩
         subst haq
         simp [goTyIs, hg0, hg1, h1, h2] at hqa
-      obtain ⟨n, hn, hi⟩ := binNode_correct env henv a har c0 c1 g0 g1 gv hi0 hi1 hq' hgo'
+      obtain ⟨n, hn, hi⟩ := binNode_correct env a har c0 c1 g0 g1 gv hi0 hi1 hq' hgo'
       have hsa : isShiftAct a = false := by simpa [isShiftAct, isShift] using hsh
       exact ⟨n, by simp [evalY, hnb, hc0, hc1, hsa, hn, hp2], hi⟩
 
